@@ -246,6 +246,46 @@ pub fn check_buffer_at(buf: &[u8], owned: bool, placement: Placement) -> Result<
         if !view.tags_match_exactly(view.tags().iter().copied()) {
             return Err("tags_match_exactly(tags()) is false".into());
         }
+        // tags_match_exactly(p) is the equality of two sequences, whatever kind of iterator carries p
+        // (exact size hint, no upper bound, a lower bound of zero) and whichever of the two is longer
+        let own: Vec<Tag> = view.tags().to_vec();
+        let mut patterns: Vec<Vec<Tag>> = vec![own.clone()];
+        if !own.is_empty() {
+            patterns.push(own[..own.len() - 1].to_vec());
+            patterns.push(own[1..].to_vec());
+            let mut changed = own.clone();
+            let last = changed.len() - 1;
+            changed[last] = Tag::from(changed[last].value() ^ 1);
+            patterns.push(changed);
+        }
+        let mut longer = own.clone();
+        longer.push(own.last().copied().unwrap_or(Tag::from(7u32)));
+        patterns.push(longer);
+        for p in &patterns {
+            let want = *p == own;
+            let kinds: [(&str, bool); 4] = [
+                ("a Vec", view.tags_match_exactly(p.clone())),
+                ("a filtered iterator (size hint 0..=len)", view.tags_match_exactly(p.iter().copied().filter(|_| true))),
+                ("a from_fn iterator (size hint 0..)", {
+                    let mut i = 0;
+                    view.tags_match_exactly(std::iter::from_fn(|| {
+                        i += 1;
+                        p.get(i - 1).copied()
+                    }))
+                }),
+                ("a chained iterator", view.tags_match_exactly(p.iter().copied().take(1).chain(p.iter().copied().skip(1)))),
+            ];
+            for (kind, got) in kinds {
+                if got != want {
+                    return Err(format!("tags_match_exactly({} of {} tags) = {} on a view of {} tags, expected {}", kind, p.len(), got, own.len(), want));
+                }
+            }
+        }
+        // the iterator iter() hands out, through every Iterator method a client may call
+        let want_items: Vec<(u32, usize, usize)> = pairs.iter().map(|(t, r)| (*t, r.start, r.len())).collect();
+        let base = buf.as_ptr() as usize;
+        mc_core::iter_battery(|| view.iter().map(|(t, v)| (t.value(), if v.is_empty() { usize::MAX } else { v.as_ptr() as usize - base }, v.len())), &want_items.iter().map(|(t, s, l)| (*t, if *l == 0 { usize::MAX } else { *s }, *l)).collect::<Vec<_>>(), "iter()")?;
+        mc_core::iter_battery(|| view.tags().iter().map(|t| t.value()), &want_tags, "tags().iter()")?;
         Ok(())
     });
     match checked {
